@@ -656,6 +656,7 @@ def c02a(chk, rs):
         if it.kind == "loop" and it.parent is f:
             in_body |= it.blocks
     # the switches of the projection branch that test a per-axis conjunction flag
+    vflags = IT.forall_flags(prog, f, its)
     flags = []
     for b, t in f.switches():
         if not rs.in_proj(b) or b in in_body:
@@ -664,11 +665,17 @@ def c02a(chk, rs):
         if s["kind"] != "value" or s["root"] is None:
             continue
         cf = IT.conj_flag(prog, f, its, s["root"])
+        if cf is None or not cf["cmps"]:
+            # `let mut exact = true; for .. { if total != to { exact = false } }`: true only if the negated test held for every pair
+            vf = vflags.get(s["root"]) or vflags.get(f.copy_root(s["root"]))
+            if vf is not None and vf["how"].startswith("violation flag"):
+                cf = {"form": "violation-flag", "it": vf["it"], "init": True, "cmps": [vf["cmp"]], "own": True, "calls": 0, "where": vf["it"].loc()}
         if cf is not None:
+            cf = dict(cf, cmps=[IT.norm_cmp(c) if c[1] is not None and c[2] is not None else c for c in cf["cmps"]])
             flags.append((b, cf))
             chk.fns_analysed.add(cf["it"].body.path)
-    EXACT = {("Eq", (0,), (1,)), ("Eq", (1,), (0,))}
-    PROJ = {("Ge", (0,), (1,)), ("Le", (1,), (0,))}
+    EXACT = {("Eq", (0,), (1,))}
+    PROJ = {("Ge", (0,), (1,))}
     def klass(cf):
         if len(cf["cmps"]) == 1 and not cf["calls"]:
             if cf["cmps"][0] in EXACT:
@@ -727,7 +734,9 @@ def c02a(chk, rs):
             continue
         seen_bodies.add(key)
         allc += IT.body_comparisons(it)
-    extra = [c for c in allc if c not in EXACT | PROJ]
+    allc = [IT.norm_cmp(c) if len(c) == 3 and c[1] is not None and c[2] is not None else c for c in allc]
+    NEGS = {("Ne", (0,), (1,)), ("Lt", (0,), (1,))}   # the same two tests written as their negations (violation flags)
+    extra = [c for c in allc if c not in EXACT | PROJ | NEGS]
     chk.ob("C02.a", "fold-closure/no-other-comparison", not extra and len(allc) == 2, f.loc(),
            "the covered-site decision compares (total, to) with == and >= only; every comparison in the per-pair bodies: %s" % allc)
     if "exact" not in sw or "projectable" not in sw:
@@ -1274,11 +1283,13 @@ def exactly_once_on_paths(f, start, header, events, exits_ok=True):
     ev = set(events)
     if not ev:
         return False, "no event block"
-    # at least one: header unreachable from start when event blocks are removed
-    reach = f.reachable_from(start, avoid=ev | {header}) if start not in ev else set()
+    # at least one: header unreachable from start when event blocks are removed (edges that cannot be taken from this arm, because the
+    # value they test was set in the arm, are not paths)
+    dead = an.infeasible_edges_from(f, start, header)
+    reach = an.reachable_with_edges_removed(f, start, ev | {header}, dead) if start not in ev else set()
     at_least = True
     for b in reach:
-        if header in f.succ.get(b, []):
+        if header in f.succ.get(b, []) and (b, header) not in dead:
             at_least = False
     if start == header:
         at_least = False
